@@ -497,11 +497,31 @@ def gen_json_history(r):
         elif k < 0.62 and arrs:
             H.op_push(r.choice(arrs), ins=True)
         elif k < 0.68 and anyj:
-            H.op_simple(r.choice(anyj), r.choice(["pop", "clr", "asize", "has", "has", "asize"]))
+            what = r.choice(["pop", "clr", "asize", "has", "has", "asize"])
+            pool = (objs if what == "has" else arrs) if r.random() < 0.85 else anyj
+            if pool:
+                H.op_simple(r.choice(pool), what)
         elif k < 0.71 and anyj:
             H.op_simple(r.choice(anyj), "cast")
         elif k < 0.83 and anyj:
-            H.op_read(r.choice(anyj))
+            s0 = r.choice(anyj)
+            n0 = H.node(s0)
+            # mostly: fetch a member that holds a scalar or string and read it with a typed accessor
+            if n0.k == "obj" and n0.v and r.random() < 0.8:
+                key = r.choice(sorted(n0.v))
+                if b"/"[0] not in key and 0x5c not in key and key and n0.v[key].k != "null":
+                    s2 = H.fresh()
+                    H.ops.append("get %d %d %s undef" % (s2, s0, hx(key)))
+                    H.h[s2] = dict(root=H.h[s0]["root"], path=H.h[s0]["path"] + (("k", key),), owning=False, kind="json", dead=False)
+                    s0 = s2
+            elif n0.k == "arr" and n0.v and r.random() < 0.8:
+                i = r.randrange(len(n0.v))
+                if n0.v[i].k != "null":
+                    s2 = H.fresh()
+                    H.ops.append("aget %d %d %d" % (s2, s0, i))
+                    H.h[s2] = dict(root=H.h[s0]["root"], path=H.h[s0]["path"] + (("i", i),), owning=False, kind="json", dead=False)
+                    s0 = s2
+            H.op_read(s0)
         elif k < 0.86 and anyj:
             # an operation of the wrong kind for the node: must be a clean error
             s = r.choice(anyj)
@@ -591,7 +611,7 @@ CORPUS = [
 
 KNOWN_REPLAYS = [
     # C29-K1 (known): an element handle dangles after the array it points into grows
-    ["jnew 1", "push 1 int32:1", "aget 2 1 0"] + ["push 1 int32:%d" % i for i in range(2, 20)] + ["gn 2 9", "free 1"],
+    ["jnew 1", "push 1 int32:1", "aget 2 1 0", "push 1 int32:2", "gn 2 9"],
 ]
 
 
